@@ -39,7 +39,7 @@ EXCS = ['ValueError', 'KeyError', 'User', 'Deep', 'BadStr', 'Unicode',
 
 def _o_filter(case):
     shape, scripts, lf, buf, v, mode = case
-    return mode in ('seq', 'j2') and v == 0 and shape in ('A1B2c', 'A2B1i', 'N1B2C1')
+    return mode in ('seq', 'j2') and v == 0 and shape in ('A1B2c', 'A2B1i', 'N1B2C1', 'BIG')
 
 
 # `assert` statements vanish under python -O
@@ -67,6 +67,10 @@ def cases(tier, seed):
     K = 1 if tier == 'quick' else 2
     vs = [0, 2] if tier == 'quick' else [0, 1, 2, 3]
     modes = ['seq', 'j2', 'c'] if tier == 'quick' else ['seq', 'j2', 'j3', 'p', 'c', 'c+j2']
+    for nie in (None, 1, 7):
+        for buf in (False, True):
+            for mode in ('seq', 'j2', 'j3', 'c', 'p'):
+                yield ['BIG', nie, {}, buf, 0 if mode != 'p' else 1, mode]
     for shape in ow.SHAPES:
         nslots = len(ow.SHAPES[shape][1])
         for scripts in ow.placements(nslots, menu, K):
@@ -107,7 +111,12 @@ def argv_of(buf, v, mode):
 
 def run_case(case):
     shape, scripts, lf, buf, v, mode = case
-    spec = ow.build(shape, scripts, lf)
+    if shape == 'BIG':
+        # 12 layers x 40 tests + 30 unit tests, every outcome kind many times
+        spec = ow.big_spec(nie=scripts)
+        scripts = []
+    else:
+        spec = ow.build(shape, scripts, lf)
     argv = argv_of(buf, v, mode)
     res = runrt.run_world(spec, argv)
     sv = monitors.SpecView(spec)
